@@ -440,7 +440,7 @@ theorem closed_createOpts_partitioned {g c ts v r} (h : createOpts d f (g+1) c t
   unfold createOpts at h
   split_run <;> grind
 theorem closed_pCreateTable {ts v r} (h : pCreateTable d f ts = .ok (v, r)) :
-    (∃ tbl q, v = .createTableAs tbl q) ∨
+    (∃ tbl ine q, v = .createTableAs tbl ine q) ∨
     (∃ r1 segs r2 c0 c c' r3, Sfx r1 ts ∧ popSplit r1 = .ok (segs, r2) ∧ createElems d f segs c0 = .ok c ∧
       createOpts d f (r2.length + 1) c r2 = .ok (c', r3) ∧ v = .createTable c' ∧ r = (moveStr r3 ";").2) := by
   unfold pCreateTable at h
